@@ -19,16 +19,16 @@ def parseBool? : String → Option Bool
   | "1" => some true
   | _ => none
 
-def parseItem? (id dur fail : String) : Option Item :=
-  match id.toNat?, dur.toNat?, parseBool? fail with
-  | some i, some d, some f => some ⟨i, d, f⟩
-  | _, _, _ => none
+def parseItem? (id dur fail empty : String) : Option Item :=
+  match id.toNat?, dur.toNat?, parseBool? fail, parseBool? empty with
+  | some i, some d, some f, some e => some ⟨i, d, f, e⟩
+  | _, _, _, _ => none
 
-/-- `-` or `id:dur:fail` -/
+/-- `-` or `id:dur:fail:empty` -/
 def parseStopData? (s : String) : Option (Option Item) :=
   if s == "-" then some none
   else match s.splitOn ":" with
-    | [i, d, f] => (parseItem? i d f).map some
+    | [i, d, f, e] => (parseItem? i d f e).map some
     | _ => none
 
 /-- `kind/id` of a logged event; the arrival marker `put` is an input, not an observation -/
@@ -85,8 +85,8 @@ def handle (s : DState) : List String → DState × String
     match parseMode? m, g.toNat?, parseStopData? sd, to.toNat? with
     | some m, some g, some sd, some to => ({ cfg := ⟨m, g, sd, to⟩, st := {} }, "ok")
     | _, _, _, _ => (s, "bad-op")
-  | ["put", t, pre, batch, id, dur, fail] =>
-    match t.toNat?, parseBool? pre, parseBool? batch, parseItem? id dur fail with
+  | ["put", t, pre, batch, id, dur, fail, empty] =>
+    match t.toNat?, parseBool? pre, parseBool? batch, parseItem? id dur fail empty with
     | some t, some pre, some batch, some x =>
       let st := step s.cfg s.st (.put t pre batch x)
       ({ s with st := st }, if st.nacc == s.st.nacc then "late" else "ok")
